@@ -26,6 +26,12 @@ CHECKS.update({
          "Hook H1 (build tag verif) reports real fields; arguments non-negative, min<=max.", "5/C20"),
 })
 
+CHECKS.update({
+ "C09": ("accessor", "state monitor: full post-state of every accessor call compared with the prediction from a frozen documented-layout table; all parameter values",
+         "All 742 getter/setter pairs are driven by reflection from arbitrary prior states (Iei, Len and every data octet set), with every value of the parameter type for uint8 fields and (thorough) uint16 fields; the complete post-state must equal 'prior with only the documented bits replaced'. Exhaustive in values, sampled in prior states.",
+         "spec/layout.json (documented Row,sBit,len frozen from the pinned tree, normalisations listed in the file); SetLen of a Buffer-backed element is an allocator.", "5/C09"),
+})
+
 NOT_YET = {
 }
 
